@@ -16,14 +16,21 @@ import (
 func init() {
 	props.Register(&props.Prop{
 		ID: "C06",
-		Explanation: "Structural clauses of the glTF/GLB writer, decided on formats/gltf's source by a path-wise symbolic (polynomial) " +
-			"execution of every function that appends payload bytes or advances the running offset, plus dominance/def-use rules: " +
-			"SYM-BYTES (bytes appended to the payload = amount added to bytesWritten, per function, path and component type), " +
-			"VIEW-1 (bufferView offset/length and accessor index/count/type/componentType pairing), ALIGN-1 (every advance is a multiple of 4), " +
-			"GLB-1 (container length law, chunk lengths, padding, magic numbers), WIDTH-1 (uint16 indices are guarded by the vertex count), " +
-			"EXT-1 (extensions in use are declared), DEDUP-1 (dedup tables store the index of the appended entry under the looked-up key), " +
-			"BUF-1/SINK-1 (buffer byteLength, payload and data URI come from the same counter and buffer). " +
-			"Necessary conditions of C06; does not decide min/max values, JSON validity, transform values, or equality-based dedup semantics.",
+		Explanation: "Structural clauses of the glTF/GLB writer, decided on formats/gltf's current source. A path-wise symbolic execution " +
+			"(values = integer polynomials over entry values, Len()/len() results and pad4() terms; counted loops summarised as trip count × " +
+			"per-iteration effect; small helpers inlined; component-type parameters specialised to the constants that reach them) of every function " +
+			"that appends payload bytes, advances Writer.bytesWritten or records indices gives: SYM-BYTES (bytes appended = amount added to the counter, " +
+			"per function, path and component type; no unaccounted bytes at returns, loop boundaries and calls), VIEW-1 (bufferView offset/length, accessor→view " +
+			"index, count·components·size = view length, scalar wire type = componentType), ALIGN-1 (views start and the counter ends on 4-byte boundaries), " +
+			"GLB-1 (12-byte header constants, total length = bytes written on each path, chunk length = data + padding ≡ 0 mod 4, padding bytes 0x20/0x00, chunk order, " +
+			"little-endian), REF-1/DEDUP-1 (an index derived from len(w.X) that is stored, recorded in a dedup table or returned is the position of an element " +
+			"appended on the same path; table key = looked-up key; appended entries are recorded; looked-up indices used unmodified). Def-use / dominance rules give: " +
+			"WIDTH-1 (uint16 indices guarded by the vertex count of the same mesh), EXT-1/EXT-2 (extensions stored are declared used, required ⊆ used), SINK-1/BUF-1/OUT-1 " +
+			"(bit writer wraps the payload buffer little-endian; buffer.byteLength = counter, data URI = StdEncoding of the payload, embedding strategy per container, " +
+			"extension lists from the matching sets), AXIS-3/SRC-1/MINMAX-1 (components in X,Y,Z,W order; element i of the iterator whose Len() bounds the loop; min/max are " +
+			"Min/Max reductions over the written values), ATTR-1/XFORM-1/SEM-1 (one mesh per primitive, key/type/data follow one attribute name; node and instance transforms " +
+			"come from the model's fields of the same meaning; semantic and component-type tables and primitive.mode agree with the glTF 2.0 specification). " +
+			"Necessary conditions of C06; does not decide min/max values, JSON validity, numeric transform values, equal()-based dedup semantics, skins/animations beyond byte accounting.",
 		Assumptions: []string{
 			"integer conversions are identities (no overflow); lengths and Len() results are non-negative",
 			"pure accessor calls (Len(), Frames(), JointCount(), Size()) return the same value when repeated on the same receiver within one activation",
@@ -67,6 +74,11 @@ func run(c *props.Ctx) {
 	w.ruleMinMax(a)
 	w.ruleSrc(a)
 	lap("data")
+	w.ruleXform(a)
+	w.ruleAttr(a)
+	w.ruleOut(a)
+	w.ruleSem(a)
+	lap("scene")
 
 	a.flush()
 	c.R.Extra["functions_analysed"] = len(w.fns)
@@ -103,11 +115,13 @@ func (w *world) ruleBytes(a *agg, stats *counters) {
 		}
 	}
 	nSync := 0
-	for _, fn := range syncFns {
-		isCtl := w.c.P.IsControl(fn.Pos())
-		if !isCtl {
+	for _, fn := range w.fns {
+		if w.isSync(fn) {
 			nSync++
 		}
+	}
+	for _, fn := range syncFns {
+		isCtl := w.c.P.IsControl(fn.Pos())
 		stats.roots++
 		// component-type parameters are specialised to the constants that reach them
 		var ctParams []*ssa.Parameter
@@ -155,7 +169,7 @@ func (w *world) ruleBytes(a *agg, stats *counters) {
 	if nSync < 5 {
 		w.c.R.Failf("vacuity: only %d functions advance Writer.bytesWritten (expected ≥ 5: WriteVector4/3/2, WriteIndices, AddSkin, AddAnimations)", nSync)
 	}
-	w.c.R.Floor("SYM-BYTES", 8)
-	w.c.R.Floor("VIEW-1", 8)
-	w.c.R.Floor("ALIGN-1", 8)
+	w.c.R.Floor("SYM-BYTES", 7)
+	w.c.R.Floor("VIEW-1", 6)
+	w.c.R.Floor("ALIGN-1", 6)
 }
